@@ -1113,7 +1113,7 @@ def e3_types(run, tier):
         focus = sorted(i + 1 for _, i in sorted(score)[:7])
         pm = v["pathmask"]
         vs = sorted(set([pm[0], pm[len(pm) // 2], pm[-1]] if nver == 3 else [pm[(len(pm) - 1) * j // (nver - 1)] for j in range(nver)]))
-        types[k] = {"mode": v["mode"], "children": [{"name": c["name"], "idx": c["idx"], "mask": c["mask"], "mult": c["mult"]} for c in kids],
+        types[k] = {"mode": v["mode"], "children": [{"name": c["name"], "idx": c["idx"], "mask": c["mask"], "mult": c["mult"], "ckey": c["ckey"]} for c in kids],
                     "pair": v["pair"], "focus": focus, "vers": vs, "pathmask": pm,
                     "attrs": [{"name": a["name"], "mask": a["mask"], "items": a["items"]} for a in v["attrs"]], "cdenum": v["cdenum"]}
     open(os.path.join(run, "TypesData.tla"), "w").write(json2tla.module("TypesData", "TypesDataDef", types))
@@ -1185,6 +1185,8 @@ def e3_run(tier):
                 exp_set = e["set"]
                 if sorted(ob["ok"]) != sorted(exp_set):
                     probs.append({"what": "positions accepting a creation differ", "child": nm, "expected": exp_set, "accepted": ob["ok"]})
+                if ob.get("ckey") and e.get("ckey") and ob["ckey"] != e["ckey"]:
+                    probs.append({"what": "a created sub element has another element type than the one the name has in this version", "child": nm, "expected": e["ckey"], "created": ob["ckey"]})
                 exp_range = [min(exp_set), max(exp_set)] if exp_set else None
                 got_range = ob["range"] if isinstance(ob["range"], list) else None
                 if exp_range != got_range:
